@@ -1,2 +1,26 @@
+"""Facade half of C11: MarkdownIt.enable/disable/configure/use over all four rulers, with
+'what is applied' observed at every parse: getRules of the four rulers and of the four terminator
+chains, and which plugin rules were actually invoked, against the rules reported active."""
+from __future__ import annotations
+
+import random
+
+from .. import common as C
+from .. import facade
+from . import c12
+
+
 def run(tier, rep):
-    return 0
+    cfg = f"Facade_c11_{tier}.cfg"
+    r = C.run_tlc("MCFacade", cfg, allow_violation=False, heap="12g", timeout=3000)
+    rep.tlc(f"Facade[{cfg}]", r)
+    hists = [h for h in facade.histories_from(r) if h and any(e["op"] in ("enable", "disable", "configure") for e in h)]
+    # every history ends with a parse, so that the rules applied after it are observed
+    hists = [h + [{"op": "parse", "i": 1, "api": "render", "doc": "D2", "env": "omitted"}] for h in hists]
+    if tier == "quick" and len(hists) > 3000:
+        random.Random(C.SEED).shuffle(hists)
+        hists = hists[:3000]
+    if len(hists) < 300:
+        raise C.MachineryError(f"only {len(hists)} facade histories exported")
+    c12.validate(rep, "facade-histories", hists, "C11")
+    return len(hists)
